@@ -135,6 +135,14 @@ mk('str_space', ['n%'], [P(F('LEN', F('SPACE$', var('n%'))))],
 mk('str_string_s', ['n%', 's$'],
    [P(F('STRING$', var('n%'), var('s$')))], pre='x0 <= 6',
    family='string')
+# constant string sub-expressions next to a run-time string (what a
+# compile-time rule may fold)
+mk('str_literal_fold', ['s$'],
+   [P(B('+', var('s$'), B('+', S('a'), S('b')))),
+    P(B('+', B('+', S('c'), S('')), var('s$'))),
+    L(var('t$'), B('+', S('x'), S('y'))), P(var('t$'), ';', F('LEN', var('t$'))),
+    P(B('=', B('+', S('a'), S('b')), var('s$')))],
+   family='string')
 mk('str_assign', ['s$'], [L(var('t$'), B('+', var('s$'), S('x'))),
                           P(var('t$'), ';', var('s$'))], family='string')
 
@@ -368,13 +376,13 @@ mk('input_two_then_gosub', [],
    [('input', None, ';', [var('a%'), var('b&')]),
     ('gosub', 'show'), P(S('back')), ('end',),
     ('label', 'show'), P(var('a%'), ';', var('b&')), ('return',)],
-   lines=1, tail_lines=['1,1'], family='input', budget=600)
+   lines=1, tail_lines=['1,1'], slow=True, family='input', budget=600)
 mk('input_prompt_str', [],
    [('input', 'Name', ',', [var('n$'), var('k%')]),
     P(var('n$'), ';', var('k%')),
     ('callsub', 'after', []), P(S('end'))],
    subs=[Sub('after', 'sub', [], [P(S('in sub'))])],
-   lines=1, tail_lines=['x,1'], family='input', budget=600)
+   lines=1, tail_lines=['x,1'], slow=True, family='input', budget=600)
 mk('input_into_elem_field', [],
    [('input', 'v', ';', [('idx', 'arr%', [I(1)]),
                          ('fld', var('p'), ['y'], '&')]),
@@ -383,7 +391,7 @@ mk('input_into_elem_field', [],
    head=[('dim', 'dim', [('arr%', [(I(0), I(1))], None)]),
          ('dim', 'dim', [('p', None, 'pt')])],
    types=[('pt', [('x%', None), ('y&', None)])],
-   lines=1, tail_lines=['1,1'], family='input', budget=600)
+   lines=1, tail_lines=['1,1'], slow=True, family='input', budget=600)
 
 # ------------------------------------------- storage (C04 sentinel programs)
 mk('stor_unassigned_reads', ['a%', 'b%'],
@@ -487,9 +495,7 @@ mk('dbg_eval_main', ['a%', 'b&', 'i%'],
 mk('dbg_eval_arrays', ['i%', 'j%', 'k%'],
    [('for', var('x%'), I(0), I(1), None,
      [('for', var('y%'), I(1), I(3), None,
-       [L(('idx', 'm&', [var('x%'), var('y%')]),
-          B('+', B('*', var('x%'), I(10)), var('y%'))),
-        ('for', var('z%'), I(0), I(2), None,
+       [('for', var('z%'), I(0), I(2), None,
          [L(('idx', 'c%', [var('x%'), var('y%'), var('z%')]),
             B('+', B('+', B('*', var('x%'), I(100)),
                      B('*', var('y%'), I(10))), var('z%'))),
@@ -497,28 +503,20 @@ mk('dbg_eval_arrays', ['i%', 'j%', 'k%'],
             B('+', B('+', B('*', var('x%'), I(100)),
                      B('*', var('y%'), I(10))), B('+', var('z%'), I(1000))))
           ])])]),
-    L(('fld', ('idx', 'r', [I(2)]), ['y'], '&'), LG(22)),
-    L(('fld', ('idx', 'r', [I(1)]), ['x'], '%'), I(11)),
-    P(('idx', 'm&', [var('i%'), var('j%')])),
     P(('idx', 'c%', [var('i%'), var('j%'), var('k%')])),
     P(('idx', 'd%', [var('i%'), var('j%'), var('k%')])),
-    P(('fld', ('idx', 'r', [var('j%')]), ['y'], '&')),
-    P(('fld', ('idx', 'r', [var('j%')]), ['x'], '%')),
     P(B('+', ('idx', 'c%', [I(1), I(3), I(2)]),
-        ('idx', 'm&', [I(1), I(2)]))),
+        ('idx', 'd%', [I(1), I(2), I(1)]))),
     ('callsub', 'peekit', [var('i%'), var('j%'), var('k%')])],
-   head=[('dim', 'dim', [('m&', [(I(0), I(1)), (I(1), I(3))], None)]),
-         ('dim', 'shared', [('c%', [(I(0), I(1)), (I(1), I(3)),
+   head=[('dim', 'shared', [('c%', [(I(0), I(1)), (I(1), I(3)),
                                     (I(0), I(2))], None)]),
          L(var('n%'), I(2)),
          ('dim', 'dim', [('d%', [(I(0), I(1)), (I(1), I(3)),
-                                 (I(0), var('n%'))], None)]),
-         ('dim', 'dim', [('r', [(I(1), I(2))], 'pt')])],
+                                 (I(0), var('n%'))], None)])],
    subs=[Sub('peekit', 'sub', [('a%', None), ('b%', None), ('c2%', None)],
              [P(('idx', 'c%', [var('a%'), var('b%'), var('c2%')]))])],
-   types=[('pt', [('x%', None), ('y&', None)])],
-   pre='-1 <= x0 <= 2 and 0 <= x1 <= 4 and -1 <= x2 <= 3', family='dbgeval',
-   budget=3000)
+   pre='0 <= x0 <= 2 and 1 <= x1 <= 4 and 0 <= x2 <= 3', slow=True,
+   family='dbgeval', budget=3000)
 mk('dbg_eval_str', ['s$', 't$'],
    [L(('idx', 'n$', [I(1)]), var('t$')),
     P(var('s$')), P(B('+', var('s$'), S('!'))), P(('idx', 'n$', [I(1)])),
